@@ -409,7 +409,15 @@ class Defn:
         self.name, self.nargs, self.body, self.default, self.how = name, nargs, body, default, how
 
     def body_src(self):
-        return ''.join(('#%d' % p) if isinstance(p, int) else p for p in self.body)
+        out = ''
+        for p in self.body:
+            if isinstance(p, int):
+                out += '#%d' % p
+            elif isinstance(p, (list, tuple)):        # ('foot', 'text'): \\footnote{text}
+                out += '\\footnote{' + p[1] + '}'
+            else:
+                out += p
+        return out
 
     def node(self):
         if self.how == 'def':
@@ -441,8 +449,14 @@ class Defn:
             fmt += (' {%d}' % i) if i in bare else ('{{{%d}}}' % i)
         order = []
         mono = True
+        uses = {}
+        foots = []
         for p in self.body:
+            if isinstance(p, (list, tuple)):
+                foots.append(p[1])
+                continue
             if isinstance(p, int):
+                uses[p] = uses.get(p, 0) + 1
                 if nopt and p == 1:
                     if optidx is not None:
                         order.append(optidx)
@@ -452,7 +466,27 @@ class Defn:
                     order.append(p - 1 - nopt)
             elif ''.join(p.split()):
                 order.append(esc(''.join(p.split())))
-        return place(fmt, parts, ev_order=order, mono=False)
+        node = place(fmt, parts, ev_order=order, mono=False)
+        # detached text: a footnote in the body is generated once per call (mapped into the
+        # call); a footnote inside an argument appears as often as the argument is used
+        extra = []
+        for i, a in enumerate(args):
+            k = uses.get(i + 1 + nopt, 0)
+            if k == 0:
+                n_det = len(a.det)
+                if n_det:
+                    # argument not used: its detached flows do not exist
+                    for f in a.det:
+                        ff = [_sh_ev(e, node.src.index(a.src)) for e in f]
+                        if ff in node.det:
+                            node.det.remove(ff)
+            for _ in range(max(0, k - 1)):
+                off = node.src.index(a.src)
+                extra += [[_sh_ev(e, off) for e in f] for f in a.det]
+        node.det += extra
+        for t in foots:
+            node.det.append([('G', 0, len(node.src), esc(''.join(t.split())))])
+        return node
 
 
 # ------------------------------------------------------------------ faults (C08)
